@@ -152,7 +152,8 @@ def other_records(rnd, tier):
         model = fd.euler.euler2d(gamma=gam)
         m = fd.mesh2d.mesh2d(3, 2)
         for tag in ("left", "right", "bottom", "top"):
-            dirn = np.asarray(m.normal_of_bc(tag), dtype=float)
+            dirn_raw = m.normal_of_bc(tag)                     # handed to namedBC exactly as the space operator does
+            dirn = np.asarray(dirn_raw, dtype=float)
             k = dirn.shape[1]
             nvec = dirn[:, 0]
             rho, p = 10.0 ** rnd.uniform(-2, 2), 10.0 ** rnd.uniform(-2, 2)
@@ -172,13 +173,15 @@ def other_records(rnd, tier):
                     prm.update(ptot=ptI * 1.2, rttot=rtI * 1.1)
                 if name == "insup":
                     prm.update(ptot=ptI * 1.1, rttot=rtI * 0.9, p=p * 0.9)
-                    if c % 2 and tag == "left":
-                        prm["angle"] = rnd.choice([20.0, -35.0])
+                    if c % 2:
+                        # inflow direction given by an angle (measured from +x), kept pointing into the domain for this side
+                        inward = {"left": 0.0, "right": 180.0, "bottom": 90.0, "top": -90.0}[tag]
+                        prm["angle"] = inward + rnd.choice([20.0, -35.0])
                 if name == "outsub":
                     prm.update(p=p * 0.9)
                 try:
                     with np.errstate(all="ignore"):
-                        out = model.namedBC(name, dirn, I, prm)
+                        out = model.namedBC(name, dirn_raw, I, prm)
                     Brho, BV, Bp = float(np.ravel(out[0])[0]), (float(out[1][0][0]), float(out[1][1][0])), float(np.ravel(out[2])[0])
                 except Exception as ex:
                     recs.append(dict(kind="raised", what="%s: %s" % (type(ex).__name__, str(ex)[:100]), model="euler2d", bc=name))
